@@ -295,6 +295,7 @@ fn via_file(ctx: &mut Ctx, enc: Enc, _any: bool) {
             return;
         }
     }
+    #[cfg(feature = "elf_std")]
     match super::util::open_stream(&b.bytes) {
         Ok(mut f) => match f.symbol_version_table() {
             Ok(Some(t)) => {
